@@ -88,6 +88,12 @@ AddRet(s, spare, xs) ==
       err == AddClass(old, n)
   IN [err |-> err, ret |-> IF err = "" THEN n ELSE old, old |-> old]
 
+\* what the old slice may show after the call, over the tie-breaking orders ({s} unless "asfound")
+AddOlds(s, spare, xs) ==
+  IF Variant = "asfound" /\ Len(xs) <= spare
+    THEN {SubSeq(SortedBy(tb, s \o xs), 1, Len(s)) : tb \in 1..4} \cup {SubSeq(Sorted(s \o xs), 1, Len(s))}
+    ELSE {s}
+
 \* buildExonsFor(t, xs...): the transcript is location 0
 BuildClass(xs) ==
   LET a == AddRet(<<>>, 0, xs)
